@@ -628,5 +628,5 @@ func (d *drv) report(v verdict) {
 	}
 	d.seen["sig:"+mv.kind+sig] = true
 	d.perKey[key]++
-	d.c.Violation(mv.kind, sig, mv.detail+"\n(minimised from "+v.lc.String()+")", mv.lc.String())
+	d.c.Violation(mv.kind, sig, mv.detail+"\n(minimised from "+v.lc.String()+")", mv.lc.JSON())
 }
